@@ -38,8 +38,7 @@ TRUSTED_BASE = [
 ASSUMPTIONS = [
     "identifiers added to one table all have the table's width (160 bits in the code)",
     "bucket capacity >= 1",
-    "distinct stored Node objects have distinct public keys (closest_nodes collects candidates in a set keyed by public key)",
-    "rtt values are small non-negative integers in the correspondence run (the model compares n.rtt >= R * node.rtt exactly)",
+        "rtt values are small non-negative integers in the correspondence run (the model compares n.rtt >= R * node.rtt exactly)",
 ]
 
 W = 160
@@ -740,8 +739,8 @@ def run(ctx: Ctx):
     if ctx.thorough():
         small_scope(ctx, 2, 5, 1, [0, 3 << (W - 2), (1 << W) - 1])
         small_scope(ctx, 4, 3, 3, [0, 9 << (W - 4)])
-    routing_scenarios(ctx, ctx.scale(36, 400), [60, 150, 150, 400, 400, 800])
-    routing_scenarios(ctx, ctx.scale(2, 12), [2000, 2600])
+    routing_scenarios(ctx, ctx.scale(28, 300), [60, 150, 150, 300, 400, 700])
+    routing_scenarios(ctx, ctx.scale(1, 10), [2000, 2600])
 
 
 def search(ctx: Ctx, reason: str):
